@@ -56,6 +56,13 @@ THEOREMS = [
     "PorepyVerif.C26.match2d_nested_weights",
     "PorepyVerif.C26.match2d_nested_avg_rowsum_one",
     "PorepyVerif.C26.match2d_nested_int_colsum_one",
+    "PorepyVerif.C26.tessPair_sound",
+    "PorepyVerif.C26.wellFormedB_sound",
+    "PorepyVerif.C26.mortar_update_valid_checked",
+    "PorepyVerif.C26.secondary_update_valid_checked",
+    "PorepyVerif.C26.face_update_valid_checked",
+    "PorepyVerif.C26.kron_rowSum",
+    "PorepyVerif.C26.kron_colSum",
 ]
 LEAN_MODULES = ["PorepyVerif.C26.Props"]
 AUDIT = "PorepyVerif/C26/Audit.lean"
@@ -73,7 +80,8 @@ RULE = ("44% of the cases: a MortarGrid built directly on a straight segment of 
         "regular 4-way refinement, depth 2, thorough 3): pp.match_grids.match_2d for both scalings is compared with the Lean model and a "
         "MortarGrid with these side grids is put through update_mortar / update_secondary (oracle); thorough adds 6% MortarGrids "
         "with non-nested 2-D simplex side grids (match_2d, oracle only). non-trivial = at least one replacement that makes the grids non-matching; "
-        "distinct = distinct cases")
+        "strata (counted in input_distribution.strata): single-cell grids, cell size ratios up to 62, coordinates scaled by 2**-10..2**12, "
+        "the same replacement repeated, nd in 1..3, new side grids handed over in reversed dict order. distinct = distinct cases")
 TRUSTED = [
     "modelled, not verified: scipy.sparse products / bmat / transposes / coo listing order, porepy.intersections.line_tessellation -> segments_3d "
     "(modelled as the exact interval overlap max(0, min(b,d) - max(a,c)) of the cell parameters along the line), Grid.cell_nodes / cell_volumes, "
@@ -103,7 +111,11 @@ EXPLANATION = ("CORE (partial): the model covers _init_projections, _set_project
                "transposed pairs, is the stack of its sides, and on each side all eight projections have unit row sums (averaged) resp. unit "
                "column sums (integrated) on the covered entities. 2-D mortar grids: children of any nested triangle refinement recipe "
                "partition the parent (areas add up, orientation kept), hence match_2d's averaged / integrated matrices of a nested refinement "
-               "are row- / column-stochastic. Not proved: the geometric face identification, non-nested 2-D overlaps, floating point. Correspondence compares all eight matrices densely after every "
+               "are row- / column-stochastic. The hypotheses of these theorems are decidable input conditions (tessPair, wellFormedB, faceHypsB with soundness theorems "
+               "tessPair_sound, wellFormedB_sound, *_valid_checked); the driver evaluates them on every case and the answer ('hyp': true) "
+               "is part of the compared output. Vector-valued variants (nd, A kron I) keep the row / column sums (kron_rowSum, kron_colSum); "
+               "primary_to_mortar_avg(nd), mortar_to_secondary_int(nd) and sign_of_mortar_sides are compared with the model on every directly "
+               "built case. Not proved: the geometric face identification, non-nested 2-D overlaps, floating point. Correspondence compares all eight matrices densely after every "
                "step with tolerance 1e-10; the oracle checks the property (and that cell measures are mapped to cell measures) on the real objects.")
 ASSUMPTIONS = [
     "fractures are straight; 1-D mortar grids (2-D mortar grids through match_2d are covered by the oracle only)",
@@ -120,7 +132,12 @@ TOL = 1e-10
 def _tnodes(rng, kmax=6):
     """ascending parameters 0 = t0 < ... < tn = 1 (fractions as strings): uniform refinement or random rationals"""
     mode = rng.random()
-    if mode < 0.35:
+    if mode < 0.08:  # stratum: a single cell
+        ts = [Fraction(0), Fraction(1)]
+    elif mode < 0.16:  # stratum: cells of very different size (ratio up to 62)
+        ts = [Fraction(0), Fraction(1, 64), Fraction(rng.choice([2, 33, 63]), 64), Fraction(1)]
+        ts = sorted(set(ts))
+    elif mode < 0.4:
         n = rng.randint(1, kmax)
         ts = [Fraction(i, n) for i in range(n + 1)]
     else:
@@ -151,7 +168,8 @@ def _gen_syn(rng, tier):
         faces = [[p[0] for p in pairs], [p[1] for p in pairs]]
     case = {"kind": "syn", "nsides": nsides, "p0": [rng.randint(-3, 3), rng.randint(-3, 3)],
             "d": rng.choice([[4, 0], [0, 2], [3, 4], [-2, 6], [8, -1]]), "init": init, "n_prim": n_prim, "faces": faces,
-            "dup": dup, "bad": None, "steps": []}
+            "dup": dup, "bad": None, "steps": [], "nd": rng.choice([1, 2, 3]),
+            "scale": rng.choice([0, 0, 0, -10, -4, 7, 12])}  # stratum: extreme scale (coordinates times 2**scale)
     if rng.random() < 0.08 and ncell >= 1:
         case["bad"] = rng.choice(["count", "numcells"] if nsides == 2 else ["numcells"])
     nsteps = rng.randint(1, 4 if tier == "quick" else 7)
@@ -165,6 +183,8 @@ def _gen_syn(rng, tier):
                 case["steps"].append({"op": "mortar", "sides": {str(s): _side_spec(rng) for s in which}, "rev_order": rng.random() < 0.3})
         else:
             case["steps"].append(dict(_side_spec(rng), op="secondary"))
+        if rng.random() < 0.15:  # stratum: the same replacement repeated
+            case["steps"].append(json.loads(json.dumps(case["steps"][-1])))
     return case
 
 
@@ -312,7 +332,11 @@ def _dense(M):
 
 
 def _snapshot(intf):
-    return {m: _dense(getattr(intf, m)()) for m in MATS}
+    """the eight matrices; "hyp": the input conditions of the theorems (tessellations of one segment, well-formed map)
+    hold by construction of the case - the driver evaluates them with the decidable checks of the model"""
+    d = {m: _dense(getattr(intf, m)()) for m in MATS}
+    d["hyp"] = True
+    return d
 
 
 def _coo_entries(ps):
@@ -335,8 +359,9 @@ class _Trace:
         import porepy as pp
         from porepy.grids.mortar_grid import MortarSides
         c = self.case
-        p0 = np.array(c["p0"] + [0], float)
-        p1 = p0 + np.array(c["d"] + [0], float)
+        sc = 2.0 ** c.get("scale", 0)
+        p0 = np.array(c["p0"] + [0], float) * sc
+        p1 = p0 + np.array(c["d"] + [0], float) * sc
         self.origin, self.direction = p0, p1 - p0
         SIDES = [MortarSides.LEFT_SIDE, MortarSides.RIGHT_SIDE][: c["nsides"]]
         sec = _grid1d(p0, p1, c["init"])
@@ -368,7 +393,7 @@ class _Trace:
             self.impl.append(err_kind(e))
             return
         self.impl.append(_snapshot(intf))
-        ctx = {"intf": intf, "covered": None, "n_sec": n_sec}
+        ctx = {"intf": intf, "covered": None, "n_sec": n_sec, "trace": self}
         if self.hook and self.hook("init", ctx):
             return
         for k, st in enumerate(c["steps"]):
@@ -376,10 +401,12 @@ class _Trace:
                 if st["op"] == "mortar":
                     new = {SIDES[int(s)]: _grid1d(p0, p1, sp) for s, sp in _ordered(st)}
                     self.ops.append({"op": "mortar", "sides": [(_cells_param(new[S], p0, self.direction) if S in new else None) for S in SIDES]})
+                    ctx["pairs"] = [(new[S], intf.side_grids[S]) for S in new]
                     intf.update_mortar(new, 1e-6)
                 else:
                     g = _grid1d(p0, p1, st)
                     self.ops.append({"op": "secondary", "cells": _cells_param(g, p0, self.direction)})
+                    ctx["pairs"] = [(sg, g) for sg in intf.side_grids.values()]
                     intf.update_secondary(g, 1e-6)
                     ctx["n_sec"] = g.num_cells
             except Exception as e:
@@ -388,6 +415,11 @@ class _Trace:
             self.impl.append(_snapshot(intf))
             if self.hook and self.hook(f"step{k}:{st['op']}", ctx):
                 return
+        nd = c.get("nd", 1)
+        self.ops.append({"op": "kron", "nd": nd})
+        self.impl.append({"primary_to_mortar_avg_nd": _dense(intf.primary_to_mortar_avg(nd=nd)),
+                          "mortar_to_secondary_int_nd": _dense(intf.mortar_to_secondary_int(nd=nd)),
+                          "sign": _dense(intf.sign_of_mortar_sides())})
 
     # ---- mdg
     def _make_mdg(self, n):
@@ -833,6 +865,28 @@ def _stored_duplicates(intf):
     return col.size != np.unique(col).size
 
 
+def _overlap_missed(pairs, tr):
+    """root-cause test for 1-D grids: a pair of cells with a genuine common part (exact, from the cell parameters)
+    for which pp.intersections.line_tessellation - as called by match_1d - reports no or a different overlap"""
+    import porepy as pp
+    L = float(np.linalg.norm(tr.direction))
+    for a, b in pairs:
+        ca = [[Fraction(x) for x in c] for c in _cells_param(a, tr.origin, tr.direction)]
+        cb = [[Fraction(x) for x in c] for c in _cells_param(b, tr.origin, tr.direction)]
+
+        def lines(g):
+            cn = g.cell_nodes()
+            return cn.indices.reshape((2, -1), order="F")
+
+        rep = {(i, j): w for i, j, w in pp.intersections.line_tessellation(a.nodes, b.nodes, lines(a), lines(b))}
+        for i, (lo1, hi1) in enumerate(ca):
+            for j, (lo2, hi2) in enumerate(cb):
+                ex = float(max(Fraction(0), min(hi1, hi2) - max(lo1, lo2)))
+                if ex > 1e-6 and abs(rep.get((i, j), 0.0) / L - ex) > 1e-6:
+                    return True
+    return False
+
+
 def _self_match_broken(grids):
     """root-cause test for 2-D grids: match_2d of a grid with itself must be the identity"""
     import porepy as pp
@@ -873,6 +927,8 @@ def _oracle_hook(case, res):
             r = _check_intf(intf, side_faces, sec_vol, face_area, state["geo"].setdefault(k, {}) if case["kind"] == "mdg" else None)
             if r is not None:
                 key = f"{case['kind']}:{op}:{r[0]}:{r[1]}"
+                if case["kind"] == "syn" and _overlap_missed(ctx.get("pairs", []), ctx["trace"]):
+                    key = "match_1d:overlap-missed-at-large-coordinates"
                 if case["kind"] == "tri" and _self_match_broken(list(intf.side_grids.values()) + [ctx.get("sec")]):
                     key = "match_2d:touching-triangles-reported-as-overlapping"
                 if op == "primary" and state["dup_before"].get(k):
@@ -962,6 +1018,18 @@ def shrink_candidates(case):
             yield dict(case, fracs=[case["fracs"][keep]], steps=st2)
 
 
+def _specs(case):
+    out = []
+    if case["kind"] == "syn":
+        out.append(case["init"])
+    for st in case.get("steps", []):
+        if "t" in st:
+            out.append(st)
+        if isinstance(st.get("sides"), dict):
+            out += [sp for sp in st["sides"].values() if isinstance(sp, dict) and "t" in sp]
+    return out
+
+
 def stats(cases, impl_outs):
     import collections
     kinds = collections.Counter(c["kind"] for c in cases)
@@ -978,5 +1046,15 @@ def stats(cases, impl_outs):
         "mdg_primary_with_shifted_nodes": sum(1 for c in cases if c["kind"] == "mdg" for st in c["steps"] if st["op"] == "primary" and st.get("shift")),
         "mdg_primary_after_nonmatching": sum(1 for c in cases if c["kind"] == "mdg" and any(st["op"] == "primary" for st in c["steps"][1:])),
         "cases_ending_in_error": errs,
+        "strata": {
+            "single_cell_grids": sum(1 for c in cases for sp in _specs(c) if len(sp["t"]) == 2),
+            "cell_size_ratio_over_30": sum(1 for c in cases for sp in _specs(c) if "1/64" in sp["t"]),
+            "syn_scale_2^-10..-4": sum(1 for c in cases if c["kind"] == "syn" and c.get("scale", 0) < 0),
+            "syn_scale_2^7..12": sum(1 for c in cases if c["kind"] == "syn" and c.get("scale", 0) > 0),
+            "repeated_identical_step": sum(1 for c in cases for a, b in zip(c.get("steps", []), c.get("steps", [])[1:]) if a == b),
+            "nd": dict(collections.Counter(c.get("nd") for c in cases if c["kind"] == "syn")),
+            "mortar_new_grids_in_reversed_dict_order": sum(1 for c in cases for st in c.get("steps", []) if st.get("rev_order")),
+            "nest_cells": [len(o[0]["areas2"]) for c, o in zip(cases, impl_outs) if c["kind"] == "nest" and isinstance(o, list) and o][:20],
+        },
         "steps_per_case": dict(collections.Counter(len(c.get("steps", [])) for c in cases)),
     }
